@@ -356,11 +356,13 @@ StringChannels == {5, 6}             \* "s".match(P), "s".search(P)
 \* work[1] = -1: the compiler's internals could not be observed (not judged; the absolute counting cap and the watchdog remain).
 WorkFactor(plen) == IF plen >= 10000 THEN 1000000000 ELSE 9 * plen * plen
 ConsWorkOK(r) == r.work[1] < 0 \/ r.work[1] \div (r.work[2] + 1) <= WorkFactor(r.plen)
-\* bounded construction MEMORY, by counting: the program under construction grows only through the counted path - work[3] = the
-\* largest length of a compiler's program seen at any counted emission (-1: not observable) never exceeds the number
-\* of instructions counted so far (work[2]), which the counting cap bounds.  A program that is longer than what was emitted one
-\* instruction at a time was produced by something proportional to a number written in the pattern.
-ConsProgOK(r) == Len(r.work) < 3 \/ r.work[3] < 0 \/ r.work[2] < 0 \/ r.work[3] <= r.work[2]
+\* bounded construction MEMORY, by counting: work[3] = the largest length of a compiler's program seen at any counted emission
+\* (-1: not observable).  A program grows one counted instruction at a time (then work[3] <= work[2], the number of instructions
+\* counted so far, which the counting cap ProgCap of the driver bounds), or in bulk under a budget of the implementation's own -
+\* which cannot be larger than what the counting cap lets through either.  A program longer than both was produced by something
+\* proportional to a number written in the pattern that no budget saw.
+ProgCap == 3000000
+ConsProgOK(r) == Len(r.work) < 3 \/ r.work[3] < 0 \/ r.work[2] < 0 \/ r.work[3] <= r.work[2] \/ r.work[3] <= ProgCap
 \* and as the host measures it: work[4] = growth of the process's peak resident set (KB) over the construction through the package
 \* API (-1: not measured).  2 KB per instruction of the largest program the counting cap lets through, i.e. what an implementation
 \* may use that represents an instruction as a small tuple or object ten times over; the count written in the pattern is not in it.
